@@ -66,3 +66,12 @@ Theorem C06_source_fetch_is_model : forall src a b rv,
   else compl_sweep (src a b false) a b.
 Proof. exact g_compl_fetch_eq. Qed.
 Print Assumptions C06_source_fetch_is_model.
+
+(* ---- tie C (third extension, "small"): the `_is_mask` property of every timeline class as the code has
+   it (Proofs/GenEq_small_mask.v): the model's is_mask — which decides what an intersection emits and
+   whether a cache stitches — is the flag computed with the generated definitions only ---- *)
+From CG Require Import Proofs.GenEq_small_mask.
+Example C06_source_is_mask_is_model : _ := is_mask_is_source.
+Print Assumptions C06_source_is_mask_is_model.
+Example C06_source_is_mask_by_class : _ := g_is_mask_eqs.
+Print Assumptions C06_source_is_mask_by_class.
